@@ -147,6 +147,43 @@ class StubTask(object):
         return self.returncode is None
 
 
+_LIFTED = {}
+
+
+def lifted_init_options(self_obj):
+    """The option handling of the real RepeatingEngine.__init__ (default of repeatRetries, parsing of
+    kill-after-producers-done-delay), lifted from its current source: the statements that mention max_retries / _dieAfter and
+    the expression stored under 'repeatRetries' in the state dictionary are executed on the harness engine."""
+    import ast
+    import inspect
+    import textwrap
+    if 'code' not in _LIFTED:
+        fn = ast.parse(textwrap.dedent(inspect.getsource(engine_mod.RepeatingEngine.__init__))).body[0]
+        stmts, retr_expr = [], None
+        for st in fn.body:
+            if isinstance(st, ast.Assign) and any(isinstance(t, ast.Attribute) and t.attr == '_stateDict' for t in st.targets) \
+                    and isinstance(st.value, ast.Dict):
+                for k, v in zip(st.value.keys, st.value.values):
+                    if isinstance(k, ast.Constant) and k.value == 'repeatRetries':
+                        retr_expr = v
+                break
+            names = {n.id for n in ast.walk(st) if isinstance(n, ast.Name)}
+            attrs = {n.attr for n in ast.walk(st) if isinstance(n, ast.Attribute)}
+            if 'max_retries' in names or '_dieAfter' in attrs:
+                stmts.append(st)
+        if retr_expr is None or not stmts:
+            raise RuntimeError('cannot lift the option handling of RepeatingEngine.__init__ (its structure changed)')
+        mod = ast.Module(body=stmts, type_ignores=[])
+        ast.fix_missing_locations(mod)
+        expr = ast.Expression(body=retr_expr)
+        ast.fix_missing_locations(expr)
+        _LIFTED['code'] = (compile(mod, '<RepeatingEngine.__init__ options>', 'exec'), compile(expr, '<repeatRetries>', 'eval'))
+    code, expr = _LIFTED['code']
+    ns = {'self': self_obj}
+    exec(code, vars(engine_mod), ns)
+    return eval(expr, vars(engine_mod), ns)
+
+
 class HRep(engine_mod.RepeatingEngine):
     def __init__(self, job, world):
         self.job = job
@@ -170,12 +207,8 @@ class HRep(engine_mod.RepeatingEngine):
         self.lastExecution = False
         self.kernelCompleted = False
         self.producer_recently_finished_successfully = False
-        retries = job.workflowAttributes['repeatRetries']
-        try:
-            self._dieAfter = float(job.flowir_description['variables']['kill-after-producers-done-delay'])
-        except KeyError:
-            self._dieAfter = None
-        self._stateDict = {'repeatRetries': 3 if retries is None else retries, 'numberTaskLaunches': 0,
+        # option handling = the real constructor's own statements (sets self._dieAfter, yields the effective retries)
+        self._stateDict = {'repeatRetries': lifted_init_options(self), 'numberTaskLaunches': 0,
                            'lastTaskFinishedDate': None}
 
     def emit_now(self, what=None):
